@@ -65,8 +65,13 @@ def _type_of_const(e):
 
 
 class Oracle:
-    def __init__(self, fn, choices):
+    def __init__(self, fn, choices, dead_as_live=False):
         self.fn, self.choices, self.i = fn, choices, 0
+        # dead_as_live: statements after a return / break / continue in the same statement list are never executed, but the compiler
+        # analyses them as if control could fall through the jump (a dummy edge from the jumping block).  With this flag a jump that has
+        # statements after it consumes one decision: taken (what really happens) or fallen through (the compiler's reading).  Used for the
+        # *witness* searches only: a rejection is justified if some path of this more liberal reading reaches the faulty read.
+        self.dead_as_live = dead_as_live
         self.env = {a.arg: ast.unparse(a.annotation) for a in fn.args.args}
         assigned_anywhere = {t.id for n in ast.walk(fn) for t in ([n.target] if isinstance(n, (ast.AnnAssign, ast.For)) else getattr(n, "targets", []) if isinstance(n, ast.Assign) else [])
                              if isinstance(t, ast.Name)}
@@ -102,7 +107,9 @@ class Oracle:
         return _type_of_const(e)
 
     def block(self, stmts):
-        for s in stmts:
+        for k, s in enumerate(stmts):
+            if self.dead_as_live and isinstance(s, (ast.Return, ast.Break, ast.Continue)) and k + 1 < len(stmts) and not self.cond():
+                continue        # fall through into the dead statements
             self.stmt(s)
 
     def stmt(self, s):
@@ -144,9 +151,9 @@ class Oracle:
             pass
 
 
-def run_defined(fn, choices) -> str:
+def run_defined(fn, choices, dead_as_live=False) -> str:
     """'ok' | 'undefined: ...' | 'out-of-choices'"""
-    o = Oracle(fn, choices)
+    o = Oracle(fn, choices, dead_as_live)
     try:
         o.run()
     except Undefined as u:
@@ -186,6 +193,7 @@ def run_types(fn, c1, c2) -> str:
 class Gen:
     def __init__(self, rng, types):
         self.r, self.types = rng, types
+        self.dead = random.Random(0)
         self.assigned = ["x"]     # variables assigned somewhere earlier in the text (reads prefer them: fewer trivial rejections)
 
     def rvar(self):
@@ -247,7 +255,19 @@ class Gen:
             lines = self.stmt(d, in_loop, ind)
             out += lines
             if lines[-1].strip() in ("break", "continue", "return"):
-                break    # no dead code: the analysis of never-reached statements is outside this check
+                # dead statements after the jump (own random stream, so that the live part of every program stays as it was): reads of variables that
+                # were assigned earlier in the text and int assignments.  Soundness is judged on the real paths; a rejection must be justified by a path
+                # of the compiler's reading, in which control may fall through the jump
+                if self.dead.random() < 0.25:
+                    p = " " * ind
+                    for _ in range(self.dead.randint(1, 2)):
+                        if self.dead.random() < 0.7:
+                            out.append(p + f"sink({self.dead.choice(self.assigned)})")
+                        else:
+                            v = self.dead.choice(["a", "b", "c"])
+                            self.assigned.append(v)
+                            out.append(p + f"{v} = 1")
+                break
         return out
 
 
@@ -279,12 +299,19 @@ FIXED = [
     "def u23(x: int) -> None:\n    sink(g0)\n    while cond():\n        g0 = 1\n        sink(g0)\n",
     "def u24(x: int) -> None:\n    g0: int = g0\n    sink(g0)\n",
     "def u25(x: int) -> None:\n    g0 = 1\n    sink(g0)\n    g0 = 2\n",
+    # reads in dead code after a jump (a block-splitting statement before the jump: seed C08-4)
+    "def u26(x: int) -> None:\n    a = 1\n    if cond():\n        b = 2\n    else:\n        b = 3\n    return\n    sink(a)\n    sink(b)\n",
+    "def u27(x: int) -> None:\n    while cond():\n        a = 1\n        if cond():\n            sink(a)\n        break\n        sink(a)\n        sink(x)\n",
+    "def u28(x: int) -> None:\n    for i in range(3):\n        b = i\n        if cond():\n            b = 2\n        continue\n        sink(b)\n",
+    "def u29(x: int) -> None:\n    return\n    sink(c)\n",
+    "def u30(x: int) -> None:\n    if cond():\n        a = 1\n    return\n    sink(a)\n",
 ]
 
 
 def gen_program(i, seed, depth):
     rng = random.Random(f"c08-{seed}-{i}")
     g = Gen(rng, rng.choice([["int"], ["int", "bool"], ["int", "bool"], ["int", "bool", "float", "tuple"]]))
+    g.dead = random.Random(f"c08dead-{seed}-{i}")
     body = g.block(depth, False, 4)
     # (own stream, so the bodies stay as they were) now and then the module-level name g0 is read in the entry block before anything else
     pre = random.Random(f"c08pre-{seed}-{i}")
